@@ -131,7 +131,7 @@ fn main() {
         quiet_panics();
         let want = v["rule"].as_str().unwrap_or("");
         if id != "C16" && (want.contains("abort") || want.contains("hang")) {
-            iso::replay_guard(id, &args[2], 8 << 30, 120_000);
+            iso::replay_guard(id, &args[2], 8 << 30, 75_000);
         }
         let vs = rp(&v["case"]);
         if let Some(x) = vs.iter().find(|x| x.rule == want).or(vs.first()) {
